@@ -108,9 +108,24 @@ def gen_case(seed):
             cands = [x for x in pool if x <= cur]
             rem[k] = r2.choice(cands[-3:] + [cands[-1]])  # mostly close to the new limit, so that 0-RTT data flows at all
         opts["resume"] = rem
-        for o in script:
-            if o["side"] == "client" and r2.random() < 0.6:
-                o["t"] = r2.choice([0.0, 0.0, 0.001, 0.004])
+        if r2.random() < 0.25:
+            # the server was reconfigured with *lower* limits than the client remembers and the client sends no early
+            # data (all its writes come after the handshake): the limits of this connection bind, not the remembered ones
+            for k, pool in (("max_data_server", LIMITS), ("max_stream_data_server", LIMITS), ("max_streams_bidi_server", COUNTS), ("max_streams_uni_server", COUNTS)):
+                cur = opts.get(k)
+                if cur is None:
+                    continue
+                higher = [x for x in pool if x > cur]
+                if higher:
+                    rem[k] = r2.choice(higher)
+            for o in script:
+                if o["side"] == "client":
+                    o["t"] = round(o["t"] + 0.3, 4)
+                    o["after_handshake"] = True
+        else:
+            for o in script:
+                if o["side"] == "client" and r2.random() < 0.6:
+                    o["t"] = r2.choice([0.0, 0.0, 0.001, 0.004])
     r4 = random.Random("c06-kinds/%s" % seed)
     if r4.random() < 0.35:
         # the three per-stream transport parameters differ (RFC 9000 18.2; QuicConfiguration cannot express it, other
@@ -177,7 +192,7 @@ def run_batch(batch):
         o = sc["opts"]
         sig = tuple((k, o[k]) for k in sorted(o) if k.startswith("max_"))
         sim, ok = run_case(sc, [led, dm], res, {"gen": "limits", "seeds": [seed]},
-                           counters=("stream_frames", "updates_delivered", "retransmitted_bytes", "bytes_checked", "zero_rtt_stream_frames", "delivery_checks", "other_stream_frames_checked"),
+                           counters=("stream_frames", "updates_delivered", "retransmitted_bytes", "bytes_checked", "zero_rtt_stream_frames", "delivery_checks", "other_stream_frames_checked", "remembered_replaced_exactly"),
                            nontrivial=lambda s: bool(led.progress_after_block), sig_extra=sig)
         res.count("runs_blocked_then_progressed", 1 if led.progress_after_block else 0)
         res.count("runs_blocked", 1 if led.blocked_seen else 0)
